@@ -390,6 +390,31 @@ def r3(ctx, retsets):
               "with both children present: %s" % sorted({(tuple(sorted(o["counts"])), flow.av_single(o["ret"])) for o in outs}), key="C02.R3:children-paths")
     sr = pdb.fn("pfx_table_src_remove")
     ctx.touch(sr)
+    # every non-empty family is walked, whatever the other family looks like; a failed walk fails the call
+    succ = pdb.enum_value("PFX_SUCCESS")
+    for has4 in (True, False):
+        for has6 in (True, False):
+            def values(pe, has4=has4, has6=has6):
+                if pe[0] == "fld" and pe[1] == ("arg", 0) and pe[2] in ("pfx_table.ipv4", "pfx_table.ipv6"):
+                    return ("nin", frozenset([0])) if (has4 if pe[2].endswith("4") else has6) else 0
+                return None
+
+            def classify_f(inst, E, st):
+                if inst.op == "call" and inst.callee == "pfx_table_remove_id":
+                    e = E.path_expr(inst.args[1])
+                    fam = e[2].split(".")[1] if e[0] == "fld" and e[1] == ("arg", 0) else "?"
+                    return [(["walk:" + fam], {inst.ref: flow.av_in(0)}), (["walk:" + fam, "=failed:" + fam], {inst.ref: flow.av_in(-1)})]
+                return None
+            outs_f, fl_f = es.count_effects(sr, pdb, classify_f, retsets, values=values, cap=96)
+            want = {k: 1 for k, v in (("walk:ipv4", has4), ("walk:ipv6", has6)) if v}
+            clean = [o for o in outs_f if "failed" not in o["counts"]]
+            failed = [o for o in outs_f if "failed" in o["counts"]]
+            good = bool(clean) and all({k: v for k, v in o["counts"].items() if k.startswith("walk:")} == want and flow.av_single(o["ret"]) == succ for o in clean) \
+                and all(flow.av_single(o["ret"]) == pdb.enum_value("PFX_ERROR") for o in failed) and (bool(failed) == (has4 or has6))
+            ctx.check(good, "C02.R3", "src_remove:families[ipv4 %s, ipv6 %s]" % ("non-empty" if has4 else "empty", "non-empty" if has6 else "empty"),
+                      "%s:%d" % (sr.relfile, sr.line), "walks on the success paths: %s (expected %s); a failed walk returns PFX_ERROR: %s" % (
+                          sorted({tuple(sorted(k for k in o["counts"] if k.startswith("walk:"))) for o in clean}), sorted(want),
+                          sorted({str(flow.av_single(o["ret"])) for o in failed})), key="C02.R3:src_remove:families:%s:%s" % (has4, has6))
     roots = set()
     for c in sr.calls("pfx_table_remove_id"):
         e = vf.expr(sr, c.args[1])
@@ -580,11 +605,23 @@ def r5(ctx):
         kids.append((vf.last_field(e[1]) if e[0] == "load" else None, guarded, vf.expr(fn, r.args[1]) == ("arg", 1) and vf.expr(fn, r.args[2]) == ("arg", 2)))
     ctx.check(sorted(k[0] for k in kids) == ["trie_node.lchild", "trie_node.rchild"] and all(k[1] and k[2] for k in kids), "C02.R5", "each-child-once", "%s:%d" % (fn.relfile, fn.line),
               "recursion: %s" % kids, key="C02.R5:children")
+    # pfx_table_get_root hands out the root of the family asked for
+    gr = pdb.fn("pfx_table_get_root")
+    ctx.touch(gr)
+    famver = {"ipv4": pdb.enum_value("LRTR_IPV4"), "ipv6": pdb.enum_value("LRTR_IPV6")}
+    for fam, ver in famver.items():
+        outs_g, _f = es.count_effects(gr, pdb, lambda i, E, st: None, None, cell={1: ver})
+        got = {es.ret_expr(gr, o) for o in outs_g}
+        ctx.check(got == {("load", ("fld", ("arg", 0), "pfx_table." + fam))}, "C02.R5", "get_root[%s]" % fam, "%s:%d" % (gr.relfile, gr.line),
+                  "returns %s" % sorted(vf.show(g) for g in got if g), key="C02.R5:get_root:%s" % fam)
     for fam in ("ipv4", "ipv6"):
         f = pdb.fn("pfx_table_for_each_%s_record" % fam)
         ctx.touch(f)
         cs = f.calls("pfx_table_for_each_rec")
-        good = len(cs) == 1 and vf.expr(f, cs[0].args[0]) == ("load", ("fld", ("arg", 0), "pfx_table." + fam)) and vf.expr(f, cs[0].args[1]) == ("arg", 1) and vf.expr(f, cs[0].args[2]) == ("arg", 2)
+        start = vf.expr(f, cs[0].args[0]) if len(cs) == 1 else None
+        is_root = start == ("load", ("fld", ("arg", 0), "pfx_table." + fam)) or \
+            (start is not None and start[0] == "call" and start[1] == "pfx_table_get_root" and start[3] == (("arg", 0), ("c", famver[fam])))
+        good = len(cs) == 1 and is_root and vf.expr(f, cs[0].args[1]) == ("arg", 1) and vf.expr(f, cs[0].args[2]) == ("arg", 2)
         ctx.check(good, "C02.R5", "for_each_%s:root" % fam, "%s:%d" % (f.relfile, f.line), "walk starts at the %s root with the caller's callback and data" % fam, key="C02.R5:%s" % fam)
 
 
@@ -595,6 +632,11 @@ def check(ctx):
     r3(ctx, retsets)
     r4(ctx)
     r5(ctx)
+    from specs import C01
+    with ctx.shared({"C01.R3": ("C02.R6", "the level handed to trie_insert / trie_remove is the depth of the node found: all traversals agree on child "
+                                "polarity, and the level follows the depth on every path of the lookups (a record inserted with a wrong level is "
+                                "never found again)")}):
+        C01.r3(ctx)
     ctx.not_decided("that trie_insert / trie_remove preserve the path invariant (every node on the path spelled by its prefix bits, "
                     "parents never longer than children) for every insertion/removal history")
     ctx.not_decided("pfx_table_del_elem / pfx_table_append_elem array arithmetic beyond C18.R3's restore pair")
